@@ -72,6 +72,7 @@ EXPECTED = {
     "unique-twice": {"TAG_NOT_UNIQUE"},
     "temporal-without-def": {"TEMPORAL_TAG_ERROR"},
     "offset-with-group": {"TEMPORAL_TAG_ERROR"},
+    "temporal-extra-tag": {"TEMPORAL_TAG_ERROR"},
     "duration-without-group": {"TEMPORAL_TAG_ERROR"},
     "duration-extra-tag": {"TEMPORAL_TAG_ERROR"},
 }
@@ -232,8 +233,20 @@ def delimiter_mutations(text):
                     out.append(("comma-missing-after-close", text[:k] + " " + text[k + 1:]))
         elif ch == ",":
             out.append(("double-comma", text[:i] + ",," + text[i + 1:]))
+            out.append(("double-comma", text[:i] + ", ," + text[i + 1:]))       # empty tag written with blanks
+            out.append(("double-comma", text[:i] + " ,   , " + text[i + 1:]))
+        if ch == "(":
+            out.append(("leading-comma", text[:i + 1] + " , " + text[i + 1:]))    # '( , X': empty tag opens the group
+            out.append(("leading-comma", text[:i + 1] + "," + text[i + 1:]))
+        elif ch == ")":
+            out.append(("trailing-comma", text[:i] + " , " + text[i:]))           # 'X , )': empty tag closes the group
+            out.append(("trailing-comma", text[:i] + "," + text[i:]))
     out.append(("leading-comma", "," + text))
+    out.append(("leading-comma", " , " + text))
+    out.append(("leading-comma", " ," + text))
     out.append(("trailing-comma", text + ","))
+    out.append(("trailing-comma", text + " , "))
+    out.append(("trailing-comma", text + ", "))
     out.append(("empty-group", text + ", ()"))
     # swapped parentheses with equal counts: turn the first "(...)" into ")...("
     a = text.find("(")
@@ -350,6 +363,15 @@ def template_cases(st):
                 add("temporal-without-def", f"({mk})")
                 add("temporal-without-def", f"({mk}, {s3})")
             add("valid:temporal", f"(Def/Pl, Onset, ({s3}))")
+            if attr("Delay", "topLevelTagGroup"):
+                for mk in marks:                                  # a delayed marker: Delay is the only extra tag allowed
+                    add("valid:temporal", f"(Delay/5 s, {mk}, Def/Pl)")
+                    add("valid:temporal", f"({mk}, Def/Ne, Delay/2.5 ms), {s3}")
+                    if mk != "Offset":
+                        add("valid:temporal", f"(Delay/5 s, {mk}, Def/Pl, ({s3}))")
+                        add("valid:temporal", f"(Def/Pl, ({s3}), {mk}, Delay/5 s)")
+                    add("temporal-extra-tag", f"(Delay/5 s, {mk}, Def/Pl, {s2})")
+                    add("temporal-extra-tag", f"({mk}, Def/Pl, {s2})")
             if "Inset" in marks:
                 add("valid:temporal", f"(Def/Pl, Inset, ({s3}))")
             for mk in marks:
